@@ -316,6 +316,7 @@ type sigCase struct {
 	V0, V1  []string // symbols per slot
 	Vectors int      // how many vectors the matrix carries (2 normally)
 	Dup     bool     // the container whose vector 0 lists member 0 twice: [m0, m0, m1, m2]
+	Short   bool     // the container whose vector 0 has one member only (m0) under REP 2 or 3: nothing can satisfy it
 	Hist    bool     // the container with a roster history: one vector, REP 1, members {m1, m2} after {m0..m3}; m3 pending
 }
 
@@ -395,12 +396,28 @@ func (d *SigGrid) Build() *World {
 		w.Invoke(h, al, "addNextEpochNodes", cid, int64(1), ks)
 		w.Invoke(h, al, "commitContainerListUpdate", cid, []any{int64(r0), int64(1)})
 	}
+	// containers whose vector 0 has fewer members (one) than its REP number (2, 3)
+	for r0 := 2; r0 <= 3; r0++ {
+		cid := d.cidShort(r0)
+		w.Invoke(h, al, "addNextEpochNodes", cid, int64(0), []any{d.mem[0][0].PublicKey().Bytes()})
+		var ks []any
+		for _, k := range d.mem[1] {
+			ks = append(ks, k.PublicKey().Bytes())
+		}
+		w.Invoke(h, al, "addNextEpochNodes", cid, int64(1), ks)
+		w.Invoke(h, al, "commitContainerListUpdate", cid, []any{int64(r0), int64(1)})
+	}
 	w.Freeze()
 	return w
 }
 
 func (d *SigGrid) cidHist() []byte {
 	h := sha256.Sum256([]byte("sig-container-history"))
+	return h[:]
+}
+
+func (d *SigGrid) cidShort(r0 int) []byte {
+	h := sha256.Sum256([]byte(fmt.Sprintf("sig-container-short-%d", r0)))
 	return h[:]
 }
 
@@ -480,6 +497,19 @@ func (d *SigGrid) Cases(tier string) []GridCase {
 			})
 		}
 	}
+	// the roster whose vector 0 is shorter than its REP number: every vector-0 matrix over the first symbols must be refused
+	for r0 := 2; r0 <= 3; r0++ {
+		for slots := 0; slots <= r0+1; slots++ {
+			rec(nil, slots, func(v0 []string) {
+				for _, sy := range v0 {
+					if sy == "m3" || sy == "x1" || sy == "junk" || sy == "m0other" {
+						return
+					}
+				}
+				out = append(out, GridCase{Name: fmt.Sprintf("one-member vector under REP=%d,1 v0=%v v1=%v", r0, v0, honest(1)), Data: sigCase{R0: r0, R1: 1, V0: v0, V1: honest(1), Vectors: 2, Short: true}})
+			})
+		}
+	}
 	// vector-1 matrices (3 members: symbols naming m3 fall outside) with an honest vector 0
 	for r1 := 1; r1 <= 2; r1++ {
 		for slots := 0; slots <= r1+1; slots++ {
@@ -540,6 +570,9 @@ func (d *SigGrid) Eval(x *Exec, root *Node, gc GridCase) GridResult {
 	if c.Hist {
 		cid = d.cidHist()
 	}
+	if c.Short {
+		cid = d.cidShort(c.R0)
+	}
 	msg := d.metaBytes(w, cid, 7)
 	other := d.metaBytes(w, cid, 8)
 	rows := [][]string{c.V0, c.V1}[:c.Vectors]
@@ -562,6 +595,9 @@ func (d *SigGrid) Eval(x *Exec, root *Node, gc GridCase) GridResult {
 				for mi, k := range d.mem[v] {
 					if c.Hist && mi != 1 && mi != 2 {
 						continue // the committed roster of the history container is {m1, m2}
+					}
+					if c.Short && v == 0 && mi != 0 {
+						continue // vector 0 of this container is {m0}
 					}
 					if k.PublicKey().Verify(sg, hs[:]) {
 						_ = mi
@@ -590,7 +626,7 @@ func (d *SigGrid) Eval(x *Exec, root *Node, gc GridCase) GridResult {
 		where["repeated_member"] = repeats(rows)
 		vs = append(vs, Viol("accepted-without-rep-distinct-members", fmt.Sprintf("verifyPlacementSignatures accepted %s", gc.Name), where))
 	}
-	honest := c.Vectors == 2 && isHonest(c.V0, c.R0) && isHonest(c.V1, c.R1)
+	honest := c.Vectors == 2 && isHonest(c.V0, c.R0) && isHonest(c.V1, c.R1) && !c.Short
 	if honest && !accepted {
 		vs = append(vs, Viol("honest-matrix-rejected", fmt.Sprintf("verifyPlacementSignatures rejected the honest matrix %s (halt=%v %v %q)", gc.Name, ver.Halt, ver.Stack, ver.Fault), where))
 	}
